@@ -247,3 +247,42 @@ Proof.
   - lia.
 Qed.
 Print Assumptions C02_net_agree.
+
+Open Scope Z_scope.
+
+(* ---------- system level, over the composed model Model/Net.v (see Props/C04.v for the model) ---------- *)
+From DV Require Import Model.Net Proofs.TimeProofs Proofs.NetProofs.
+Section C02_system.
+  Variable C : cfg.
+  Variable idx_of : Z -> Z.
+  Variable vpart : Z -> Z -> Z -> Z -> bool.
+  Variable recov : Z -> Z -> Z -> list Z -> Z -> option Z.
+  Variable vrec : Z -> Z -> Z -> bool.
+  Variable own_of : Z -> Z -> Z -> Z -> Z.
+  Hypothesis vrec_unchained : c_chained C = false -> forall r p p' s, vrec r p s = vrec r p' s.
+  Hypothesis recov_sound : forall P r p sigs t s, recov P r p sigs t = Some s ->
+    exists I, incl I sigs /\ NoDup (map idx_of I) /\ t <= Z.of_nat (length I) /\
+              forall x, In x I -> vpart P r p x = true.
+  Hypothesis Hp : dom_p (c_period C).
+  Hypothesis Hg : dom_g (c_genesis C).
+  Variable F : list Z.
+  Variable P t : Z.
+  Hypothesis F_small : Z.of_nat (length F) < t.
+  Variable gen : beacon.
+  Hypothesis gen_round : b_round gen = 0.
+  Hypothesis vrec_unique : forall r p s1 s2, vrec r p s1 = true -> vrec r p s2 = true -> s1 = s2.
+
+  (* In every reachable state of the system, any two honest nodes hold the same beacon (round,
+     previous signature, signature) for every round both hold -- whatever the adversary delivered,
+     injected or served to either of them. *)
+  Theorem C02_system_agree : forall y0 gs,
+    sys_inv C idx_of vpart vrec F P t gen y0 ->
+    gadm_run C idx_of vpart recov vrec own_of F P t y0 gs ->
+    let y := grun C idx_of vpart recov vrec own_of y0 gs in
+    forall s1 s2, In s1 (y_nodes y) -> In s2 (y_nodes y) ->
+    forall b1 b2, In b1 (s_chain s1) -> In b2 (s_chain s2) -> b_round b1 = b_round b2 -> b1 = b2.
+  Proof.
+    exact (run_agree C idx_of vpart recov vrec own_of vrec_unchained recov_sound Hp Hg F P t F_small gen gen_round vrec_unique).
+  Qed.
+End C02_system.
+Print Assumptions C02_system_agree.
